@@ -736,7 +736,7 @@ func c19redefine(r *report.Run) {
 }
 
 func c19run(r *report.Run) {
-	r.Rule("(a) every constructor over its domain (all 256 values for the 8-bit types, boundary sets otherwise, the C13 string pool, slices of 0..4 elements, maps of 4 key kinds, Wrap/Error/Nil) read back through every matching accessor and through VM.Set/Get; (b) all six NewFunc forms x arity 0..6 x results 0..4 x variadic tail 0..3 x 11 call contexts x {constant, typed} arguments; (c) VM.Call/VM.Func on script functions with 0..6 parameters x 0..4 results x every requested count 0..declared+1 x {right, one fewer, one more} arguments; (e) argument slices with spare capacity and results across two calls stay the host's; (d) string/error/script/run-time panics at nesting depth 1..3, also inside sort comparators; non-trivial = every configuration except arity 0 statement calls")
+	r.Rule("(a) every constructor over its domain (all 256 values for the 8-bit types, boundary sets otherwise, the C13 string pool, slices of 0..4 elements, maps of 4 key kinds, Wrap/Error/Nil) read back through every matching accessor and through VM.Set/Get; (b) all six NewFunc forms x arity 0..6 x results 0..4 x variadic tail 0..3 x 11 call contexts x {constant, typed} arguments; (c) VM.Call/VM.Func on script functions with 0..6 parameters x 0..4 results x every requested count 0..declared+1 x {right, one fewer, one more} arguments; (f) Call/Func around a rebinding of a package-level function variable by the script or the host; (e) argument slices with spare capacity and results across two calls stay the host's; (d) string/error/script/run-time panics at nesting depth 1..3, also inside sort comparators; non-trivial = every configuration except arity 0 statement calls")
 	r.Assume("expected values are what the generator planted", "form func(*VM) can only be registered as a 0->0 function from outside the package (the VM stack is unexported)")
 	c19roundTrips(r)
 	cfgs := c19configs()
@@ -761,6 +761,66 @@ func c19run(r *report.Run) {
 	c19reentry(r)
 	c19redefine(r)
 	c19aliasing(r)
+	c19rebind(r)
+}
+
+// c19rebind: Call resolves the name at every call: a package-level function variable rebound by the script (directly,
+// inside a function, through a tuple assignment) or by the host (VM.Set) between two Calls runs the new function; the
+// same through Func(Get(name)).
+func c19rebind(r *report.Run) {
+	src := "package q\n\nfunc first(a int) int {\n\treturn a*10 + 1\n}\n\nfunc second(a int) int {\n\treturn a*10 + 2\n}\n\nvar handler = first\nvar other = second\n\nfunc Swap() {\n\thandler = second\n}\n\nfunc SwapBoth() {\n\thandler, other = other, handler\n}\n\nfunc Lit() {\n\thandler = func(a int) int {\n\t\treturn a*10 + 3\n\t}\n}\n"
+	type step struct {
+		name string
+		do   func(m *goat.M) goat.Result
+		want string
+	}
+	rebinds := []step{
+		{"script function assigns handler = second", func(m *goat.M) goat.Result { return m.Call("q.Swap", 0) }, "12"},
+		{"script tuple assignment swaps handler and other", func(m *goat.M) goat.Result { return m.Call("q.SwapBoth", 0) }, "12"},
+		{"script assigns a function literal", func(m *goat.M) goat.Result { return m.Call("q.Lit", 0) }, "13"},
+		{"host VM.Set to another script function", func(m *goat.M) goat.Result { m.VM.Set("q.handler", m.VM.Get("q.second")); return goat.Result{} }, "12"},
+		{"host VM.Set to a native", func(m *goat.M) goat.Result {
+			m.VM.Set("q.handler", goatlang.NewFunc(1, 1, func(vm *goatlang.VM, args []goatlang.Value) goatlang.Value { return goatlang.Int(args[0].Int()*10 + 4) }))
+			return goat.Result{}
+		}, "14"},
+	}
+	for _, rb := range rebinds {
+		for _, via := range []string{"Call", "Func"} {
+			for warm := 0; warm <= 2; warm++ { // number of calls made before the rebinding
+				m := goat.New()
+				if lr := m.Load(goat.FS(map[string]string{"q/q.go": src}), "q"); lr.Failed() {
+					r.Fail(&report.Case{Kind: "rebind", Key: src, Want: "loads", Got: lr.String()})
+					m.Close()
+					continue
+				}
+				call := func() string {
+					var res goat.Result
+					if via == "Call" {
+						res = m.Call("q.handler", 1, goatlang.Int(1))
+					} else {
+						res = m.Func(m.VM.Get("q.handler"), 1, goatlang.Int(1))
+					}
+					if res.Failed() || len(res.Rets) != 1 {
+						return res.String()
+					}
+					return res.Rets[0].String()
+				}
+				before := "11"
+				for i := 0; i < warm; i++ {
+					before = call()
+				}
+				rr := rb.do(m)
+				after := call()
+				key := fmt.Sprintf("VM.%s(\"q.handler\") %d time(s), then %s, then again", via, warm, rb.name)
+				r.Eval(1)
+				r.Nontrivial(key)
+				if rr.Failed() || before != "11" || after != rb.want {
+					r.Fail(&report.Case{Kind: "rebind", Key: key, Want: "11 before, " + rb.want + " after", Got: before + " before, " + after + " after " + rr.String()})
+				}
+				m.Close()
+			}
+		}
+	}
 }
 
 // c19aliasing: what the host passes in stays the host's, what it got back stays what it got: arguments given as a
@@ -861,6 +921,8 @@ func c19rerun(c *report.Case) (bool, string) {
 		c19redefine(rr)
 	case "aliasing":
 		c19aliasing(rr)
+	case "rebind":
+		c19rebind(rr)
 	}
 	return rr.Violations() > 0, fmt.Sprintf("%d failing cases in the %s family", rr.Violations(), c.Kind)
 }
